@@ -108,7 +108,7 @@ def nextConfiguration (n : Node) (now : Nat) (next : Option Config) : Node × Li
     let addedIds := c.memberIds.filter (fun i => !(n1.config.isMember i))
     let kept := n1.followers.filter (fun f =>
       (!(n1.config.isMember f.id) || c.isMember f.id) && !(addedIds.contains f.id))
-    let added := addedIds.map (fun i => ({ id := i } : Follower))
+    let added := addedIds.map (fun i => ({ id := i, next := 1 } : Follower))
     ({ n1 with followers := kept ++ added, config := c }, e1)
 
 /-- `applyConfiguration(data)` with `data` already decoded. -/
